@@ -7,6 +7,7 @@ package responder
 import (
 	"fmt"
 	"strings"
+	"sync"
 
 	"github.com/rivo/uniseg"
 
@@ -88,6 +89,7 @@ type Responder struct {
 	Queries    []string     // log of recognised queries
 	Clipboard  string
 	Mute       bool // when set, nothing is answered
+	mu         sync.Mutex
 	// Hold, when non-nil, receives replies instead of Reply (for late delivery).
 }
 
@@ -99,6 +101,8 @@ func hexs(s string) string { return fmt.Sprintf("%X", s) }
 
 // OnWrite is installed as fakecon.Console.OnWrite.
 func (r *Responder) OnWrite(p []byte) {
+	r.mu.Lock()
+	defer r.mu.Unlock()
 	for _, t := range r.lx.Feed(p) {
 		r.handle(t)
 	}
